@@ -7,7 +7,8 @@ From Atlas Require Import Base.Bytes Diff.Schema Diff.DiffModel Diff.DiffSqlite
   Lex.DownModel Lex.DownProofs
   Diff.DiffProofs Diff.DiffSqliteProofs
   Sqlite.PlanModel Sqlite.EngineModel Sqlite.InspectModel Sqlite.ReverseModel Sqlite.ReverseProofs
-  Sqlite.ReverseDropProofs Sqlite.ReverseStaticProofs.
+  Sqlite.ReverseDropProofs Sqlite.ReverseStaticProofs
+  Sqlite.ConvergeDefs Sqlite.ConvergeStep Sqlite.ConvergeSupported Sqlite.ReverseDropTableProofs.
 Import ListNotations.
 
 (** ** 1. Up then down restores the start state (SQLite: M-SQLITE planner + abstract engine)
@@ -204,6 +205,65 @@ Example C17_static_premises_nonvacuous :
   | None => False
   end.
 Proof. vm_compute. auto. Qed.
+
+(** (c) The DROP TABLE arm, for the plan of one DropTable change -- through C01's machinery
+    (agent sqlite's Converge*.v): the reverse of DROP TABLE t is exactly the statement group the
+    planner emits to ADD the inspected table, so the down run is C01's "add table" step on the state
+    the up run left.  For every state [d] outside a transaction with a duplicate-free namespace and
+    every table [c] of it whose inspection survives CREATE + inspect without a difference
+    ([desired_ok], C01's decidable precondition [desired_ok_b]; it is what excludes inline UNIQUE
+    constraints, whose automatic index the planner renames): the plan
+    [PRAGMA foreign_keys = off; DROP TABLE t; PRAGMA foreign_keys = on] is flagged reversible, and
+    when it executes, its down statements [CREATE TABLE t ..; CREATE INDEX ..] execute and the
+    differ finds no difference between the inspection of the result and the inspection of the
+    start ([synced]: the table is back at the end of the catalogue, without its rows).  [SELF]:
+    the untouched tables inspect to something the differ finds equal to itself (C02_self_empty on
+    well-formed tables).
+    Missing: plans mixing DropTable with other changes or dropping several tables (the oracle
+    executes them: 340 multi-statement reverses in the quick run). *)
+Theorem C17_reversible_sound_droptable_partial :
+  forall (nm : str) (to : xschema) (n : str) (c : ctable) (d d1 : db) (p : plan),
+  db_tx d = false -> NoDup (all_names (db_tables d)) ->
+  find_ct n (db_tables d) = Some c ->
+  desired_ok (inspect_table c) ->
+  (forall c0, In c0 (db_tables d) -> c0 <> c ->
+     tdiff (x_t (inspect_table c0)) (x_t (inspect_table c0)) = Some []) ->
+  PlanChanges (inspect d) to [DropTable n] = Some p ->
+  exec_all d (up_stmts (p_changes p)) = EngineModel.Ok d1 ->
+  p_reversible p = true /\
+  exists d2, exec_all d1 (down_stmts (p_changes p)) = EngineModel.Ok d2 /\ synced nm d2 (inspect d).
+Proof. exact drop_table_sound. Qed.
+Print Assumptions C17_reversible_sound_droptable_partial.
+
+(** non-vacuity: DROP TABLE t (with its unique index ix) next to an untouched table u *)
+Definition ex_d2 : db :=
+  mkDB [mkCT (mkX (mkTable [116]%N false false [ex_col [97]%N; ex_col [98]%N] None [ex_ix] [] []) []) [] [];
+        mkCT (mkX (mkTable [117]%N false false [ex_col [97]%N] None [] [] []) []) [] []]
+       true false.
+Example C17_droptable_nonvacuous :
+  match db_tables ex_d2 with
+  | c :: u :: _ =>
+      desired_ok_b (inspect_table c) = true /\
+      tdiff (x_t (inspect_table u)) (x_t (inspect_table u)) = Some [] /\
+      match PlanChanges (inspect ex_d2) [] [DropTable [116]%N] with
+      | Some p =>
+          p_reversible p = true /\ length (p_changes p) = 3%nat /\
+          match exec_all ex_d2 (up_stmts (p_changes p)) with
+          | EngineModel.Ok d1 =>
+              length (db_tables d1) = 1%nat /\
+              match exec_all d1 (down_stmts (p_changes p)) with
+              | EngineModel.Ok d2 =>
+                  length (db_tables d2) = 2%nat /\
+                  sqlite_schema_diff no_skip (inspect_schema [109]%N d2) (inspect_schema [109]%N ex_d2) = Some []
+              | EngineModel.Err _ => False
+              end
+          | EngineModel.Err _ => False
+          end
+      | None => False
+      end
+  | _ => False
+  end.
+Proof. vm_compute. repeat split; reflexivity. Qed.
 
 (** The full statement is false: a child table whose foreign keys point at two missing tables
     [p] (ON DELETE CASCADE) and [g]; the plan adds [p]; with foreign_keys on the plan is flagged
